@@ -155,6 +155,9 @@ def _universe(ctx: Ctx):
     for args in [(ra,), (lit, rb), (ra, rb)]:
         e1.append(Obj(cf, name="f", args=args, dtype=None, supporting_engine_types=None))
         e1.append(Obj(cf, name="g", args=args, dtype=None, supporting_engine_types=restricted))
+    # an engine-restricted function of constants only: it requires no column and is still not supported everywhere
+    fr_const = Obj(cf, name="k", args=(lit,), dtype=None, supporting_engine_types=(sql_engine,))
+    e1.append(fr_const)
     fr = Obj(cf, name="g", args=(ra,), dtype=None, supporting_engine_types=restricted)
     fu = Obj(cf, name="f", args=(rb,), dtype=None, supporting_engine_types=None)
     e2 = list(e1)
@@ -164,7 +167,7 @@ def _universe(ctx: Ctx):
     e2.append(Obj(cf, name="h", args=(fu,), dtype=None, supporting_engine_types=(sql_engine, it_engine)))
     seq = ctx.cls(C, "ColumnExpressionSequence")
     rng = Obj(ctx.cls(C, "ColumnRangeLiteral"), value=("range", 0, 3, 1), dtype=None)
-    containers = [rng, Obj(seq, items=(), dtype=None), Obj(seq, items=(lit,), dtype=None), Obj(seq, items=(ra, lit), dtype=None), Obj(seq, items=(lit, fr), dtype=None), Obj(seq, items=(fu, rb), dtype=None), Obj(seq, items=(fr, fu), dtype=None)]
+    containers = [rng, Obj(seq, items=(lit, fr_const), dtype=None), Obj(seq, items=(fr_const,), dtype=None), Obj(seq, items=(), dtype=None), Obj(seq, items=(lit,), dtype=None), Obj(seq, items=(ra, lit), dtype=None), Obj(seq, items=(lit, fr), dtype=None), Obj(seq, items=(fu, rb), dtype=None), Obj(seq, items=(fr, fu), dtype=None)]
     T = Obj(ctx.cls(P, "PredicateLiteral"), value=True)
     pr = Obj(ctx.cls(P, "PredicateReference"), tag="p")
     inc = m.find_class("ColumnInContainer")
